@@ -369,6 +369,9 @@ def part_ufunc(ctx, shard):
                 "bare": (None, 1),
                 "offset": ("degC", 1),
                 "unknown-obj": ("obj", 1),
+                # same dimension, different scale, fractional power: the quotient keeps a numeric factor in its unit
+                "fractional-power": ("sqrt(cm)", 1),
+                "fractional-power-1.5": ("cm**1.5", 1),
             }
             for (kname, (runit, _)), form, dtype in itertools.product(right_kinds.items(), ("strided", "transposed"), ("float64", "int64")):
                 shape = (2, 3) if form == "transposed" else (4,)
@@ -385,7 +388,8 @@ def part_ufunc(ctx, shard):
 
                 iop = {"add": operator.iadd, "subtract": operator.isub, "multiply": operator.imul, "true_divide": operator.itruediv, "floor_divide": operator.ifloordiv, "remainder": operator.imod, "power": operator.ipow}.get(name)
                 calls = ["call", "out", "out-int", "out-wrong-shape", "out-left", "out-right"] + (["inplace-op"] if iop else [])
-                for call, lunit in [(c, "m") for c in calls] + ([(c, lu) for c in ("call", "inplace-op") for lu in ("km/s/Mpc", "m**2/cm", "J/erg") if c in calls] if kname in ("bare", "dimless", "same") else []):
+                lunit0 = {"fractional-power": "sqrt(m)", "fractional-power-1.5": "m**1.5"}.get(kname, "m")
+                for call, lunit in [(c, lunit0) for c in calls] + ([(c, lu) for c in ("call", "inplace-op") for lu in ("km/s/Mpc", "m**2/cm", "J/erg") if c in calls] if kname in ("bare", "dimless", "same") else []):
                     ctx.count("evaluations")
                     a, b = mkq(da, lunit, form), (mk_b() if not (kname == "same" and lunit != "m") else mkq(db, lunit, form))
                     if call == "out-right" and not isinstance(b, unyt_array):
@@ -404,7 +408,7 @@ def part_ufunc(ctx, shard):
                     ctx.outcome(("ufunc2", name, kname, call, st))
                     ctx.decided(("ufunc2", name, kname, form, dtype, call))
                     case = {"part": "ufunc", "name": name, "kind": kname, "form": form, "dtype": dtype, "call": call, "left_unit": lunit}
-                    base = f"C18|ufunc|name={name}|call={call}|operand={kname}" + ("" if lunit == "m" else "|left=unsimplified-unit")
+                    base = f"C18|ufunc|name={name}|call={call}|operand={kname}" + ("" if lunit in ("m", lunit0) else "|left=unsimplified-unit")
                     if outb is not a:
                         d = diff(sa, snap(a))
                         if d:
@@ -418,7 +422,7 @@ def part_ufunc(ctx, shard):
                         if d in ("numbers", "unit", "parent-numbers", "shape"):
                             ctx.violation(base + f"|mode=failed-call-changed-target:{d}", case, type(r).__name__, d)
                     if outb is not None and st == "ok" and call in ("out", "out-left", "inplace-op"):
-                        st2, ref = run_call(lambda: uf(mkq(da, lunit, "base"), (mkq(db, runit if lunit == "m" or kname != "same" else lunit, "base")) if runit not in (None, "obj") else db.copy()))
+                        st2, ref = run_call(lambda: uf(mkq(da, lunit, "base"), (mkq(db, runit if lunit in ("m", lunit0) or kname != "same" else lunit, "base")) if runit not in (None, "obj") else db.copy()))
                         if st2 == "ok":
                             ref0 = ref[0] if isinstance(ref, tuple) else ref
                             _cmp_target(ctx, base, case, outb, ref0)
@@ -624,6 +628,9 @@ def part_catalog(ctx, shard):
         qnames = [n for n, (s, _, _) in t.inputs.items() if s]
         # deviation 0: all valid; deviation 1: each quantity operand in turn gets an incommensurable unit
         plans = [("valid", None)] + [("bad-unit@" + n, n) for n in qnames if len(qnames) >= 2]
+        if "out" in t.flags.get("inplace", ()) and t.inputs["out"][0]:
+            # a refusal that comes from NumPy itself (buffer of the wrong shape), with the buffer in another unit of the dimension
+            plans.append(("out-misfit", None))
         for pname, bad in plans:
             ctx.count("evaluations")
             kw = {}
@@ -635,6 +642,9 @@ def part_catalog(ctx, shard):
                 unit = {"X": "m", "Y": "s", "W": "g"}[slot[0]]
                 if n == bad:
                     unit = "K" if unit != "K" else "m"
+                if pname == "out-misfit" and n == "out":
+                    unit = {"m": "km", "s": "hr", "g": "kg"}[unit]
+                    v = np.full((v.shape[:-1] + (v.shape[-1] + 2,)) if v.ndim else (2,), 5.0)
                 kw[n] = mkq(v, unit, "strided" if v.ndim else "base")
             inpl = set(t.flags.get("inplace", ()))
             before = {n: snap(v) for n, v in kw.items()}
@@ -665,7 +675,8 @@ def part_catalog(ctx, shard):
 # ---- part: Unit arithmetic -------------------------------------------------------------------------------------------
 def part_unit(ctx, shard):
     world.reset_world()
-    names = ["m", "km", "g", "s", "K", "degC", "dB", "degree", "J", "N*m", "dimensionless", "percent", "m/s", "kg*m**2/s**2", "sqrt(m)", "Msun", "statC", "T"]
+    names = ["m", "km", "g", "s", "K", "degC", "dB", "degree", "J", "N*m", "dimensionless", "percent", "m/s", "kg*m**2/s**2", "sqrt(m)", "Msun", "statC", "T",
+             "m**2/cm", "km*s/m", "kHz*s", "erg/J", "hr/s"]  # the last five hold factors that cancel: simplify() has something to rewrite
     ops1 = {
         "copy": lambda u: u.copy(),
         "deepcopy": lambda u: u.copy(deep=True),
@@ -762,7 +773,8 @@ def part_unit(ctx, shard):
     return names
 
 
-UNIT_NAMES = ["m", "km", "g", "s", "K", "degC", "dB", "degree", "J", "N*m", "dimensionless", "percent", "m/s", "kg*m**2/s**2", "sqrt(m)", "Msun", "statC", "T"]
+UNIT_NAMES = ["m", "km", "g", "s", "K", "degC", "dB", "degree", "J", "N*m", "dimensionless", "percent", "m/s", "kg*m**2/s**2", "sqrt(m)", "Msun", "statC", "T",
+              "m**2/cm", "km*s/m", "kHz*s", "erg/J", "hr/s"]
 
 
 def run(ctx):
